@@ -7,6 +7,14 @@ import (
 
 var vcAllOps = []int{vcCreate, vcMarkComplete, vcDelete, vcBan, vcUnban, vcSetMd, vcDelMd, vcOpen}
 
+// vcExcludeKnown removes the scenarios written up in FINDINGS.md from the
+// harnesses that are expected to pass; each exclusion is checked on its own by
+// a VerifFinding… harness.
+func vcExcludeKnown(sc *vcScenario) {
+	verif.Assume(!sc.knownFindingA())
+	verif.Note("excluded: RebootIncompleteBlobs=true with a crash inside Create of a new key or inside Delete of an incomplete blob (FINDINGS.md F1/F2, VerifFindingCrashLeavesIncompleteWithoutSize)")
+}
+
 func vcChooseConfig() vcConfig {
 	return vcConfig{reboot: verif.Choice("reboot_incomplete", 2) == 1, shard: verif.Choice("shard_length", 2)}
 }
@@ -45,6 +53,7 @@ func VerifDiskCrashOneOp() {
 	prefix := vcMenuPrefix()
 	last := vcChooseOp(vcAllOps, 2)
 	sc := vcExecute(cfg, prefix, last, false)
+	vcExcludeKnown(sc)
 	sc.check()
 }
 
